@@ -244,6 +244,12 @@ def c01_compare(sess, cands, cut, rng):
         tail_n = max(len(arr) - cut + rng.choice([0, 0, 3, -2]), 1)
         rows = engine.gen_candles(rng, tail_n, base=float(arr[cut - 1][2]) if cut > 0 else 100.0, vol=sess.get('vol', 4),
                                   gap_prob=0.3)
+        if rng.random() < 0.5:
+            # the replacement tail opens with a jump well beyond the last shared candle's range: an order resting inside
+            # the jump must not be touched before t
+            d = rng.choice([-1, 1]) * rng.choice([0.5, 1.0, 2.0, 4.0])
+            if min(r[3] for r in rows) + d > 1:
+                rows = [(r[0] + d, r[1] + d, r[2] + d, r[3] + d) + tuple(r[4:]) for r in rows]
         new = bt.make_candles(rows, start=int(arr[0][0]) + cut * M)
         import numpy as np
         alt[s] = np.concatenate((arr[:cut], new), axis=0) if cut > 0 else new
